@@ -1,0 +1,26 @@
+//go:build verif
+
+package cmds
+
+// Add-only exports for the verification harness (family bld: C18, C32, C33, C43).
+
+// VerifBldCrc16 exposes crc16.
+func VerifBldCrc16(key string) uint16 { return crc16(key) }
+
+// VerifBldCompletedCF returns the raw flag word of a Completed.
+func VerifBldCompletedCF(c Completed) uint16 { return c.cf }
+
+// VerifBldCacheableCF returns the raw flag word of a Cacheable.
+func VerifBldCacheableCF(c Cacheable) uint16 { return c.cf }
+
+// VerifBldCSState returns (len(s), l, r) of the command slice behind a Completed.
+func VerifBldCSState(cs *CommandSlice) (n int, l int32, r int32) { return len(cs.s), cs.l, cs.r }
+
+// VerifBldTags returns the tag constants in a fixed order.
+func VerifBldTags() map[string]uint16 {
+	return map[string]uint16{
+		"optInTag": optInTag, "blockTag": blockTag, "readonly": readonly, "noRetTag": noRetTag,
+		"mtGetTag": mtGetTag, "scrRoTag": scrRoTag, "unsubTag": unsubTag, "pipeTag": pipeTag,
+		"retryableTag": retryableTag, "staticTTLTag": staticTTLTag, "InitSlot": InitSlot, "NoSlot": NoSlot,
+	}
+}
